@@ -486,6 +486,31 @@ func byzCatalogue(e common.Env) []byzScenario {
 			}
 		})
 	}
+	// every participant but one is Byzantine (the properties quantify over all Byzantine participants): all N-1 others vouch,
+	// towards the one honest party, for a broadcast nobody transmitted to it - attributed to a participant that sent nothing,
+	// to the honest party itself, to an identifier outside the session, or to the sender with the payload withheld
+	for _, n := range []int{3, 4} {
+		var byz []uint16
+		for i := 1; i <= n; i++ {
+			if i != 2 {
+				byz = append(byz, uint16(i))
+			}
+		}
+		for _, about := range []uint16{S, 2, uint16(n), 99} {
+			for _, withPayloadOfAnotherVersion := range []bool{false, true} {
+				about, other := about, withPayloadOfAnotherVersion
+				add(fmt.Sprintf("one-honest-party: all others vouch for an untransmitted broadcast attributed to %d (other version transmitted: %v)", about, other), n, byz, e.Pick(20000, 200000), e.Pick(100, 4000), func(w *rworld) {
+					m := payloadMsg(S, 1, 1, true, 0xffff)
+					for _, b := range byz {
+						w.push(b, 2, ackMsg(about, 1, m.digest, fmt.Sprintf("voucher%d", b)))
+					}
+					if other {
+						w.push(S, 2, payloadMsg(S, 1, 2, true, 0xffff))
+					}
+				})
+			}
+		}
+	}
 	return out
 }
 
